@@ -131,6 +131,9 @@ func (index *GsfaReader) Get(
 		if err != nil {
 			return nil, fmt.Errorf("error while reading linked log with next=%d: %w", next, err)
 		}
+		if err := checkChainGoesBackwards(*next, newNext); err != nil {
+			return nil, err
+		}
 		debugln("sigIndexes:", locations, "newNext:", newNext)
 		next = &newNext
 		for _, sigIndex := range locations {
@@ -183,6 +186,9 @@ bigLoop:
 		if err != nil {
 			return nil, fmt.Errorf("error while reading linked log with next=%v: %w", next, err)
 		}
+		if err := checkChainGoesBackwards(*next, newNext); err != nil {
+			return nil, err
+		}
 		debugln("sigIndexes:", locations, "newNext:", newNext)
 		next = &newNext
 		for _, txLoc := range locations {
@@ -207,4 +213,18 @@ bigLoop:
 		}
 	}
 	return allTransactionLocations, nil
+}
+
+// checkChainGoesBackwards verifies that the record a record points to was written before it.
+// Every record links to the previous record of the same address, which lies at a lower offset
+// of the log; a pointer that does not go backwards (a corrupt or crafted file: a record that
+// points to itself or to a newer one) made the readers follow the chain forever.
+func checkChainGoesBackwards(current, previous indexes.OffsetAndSize) error {
+	if previous.IsZero() {
+		return nil // end of the chain
+	}
+	if previous.Offset >= current.Offset {
+		return fmt.Errorf("corrupt linked log: the record at offset %d points to offset %d, which is not before it", current.Offset, previous.Offset)
+	}
+	return nil
 }
